@@ -247,9 +247,9 @@ class OpHooks(FwdHooks):
 
 def r16_5(ctx):
     from .c02 import gdg_wiring
-    ctx.rep.rule("R16.5", "derived Milstein operator: g_prod_and_gdg_prod_* == (g v1, vjp(g, y, g (.) v2)) per noise type")
+    ctx.rep.rule("R16.5", "derived Milstein operator: g_prod_and_gdg_prod_* == (g v1, sum_l jvp(g[:, l], y, g[:, l] v2_l)) for each noise type a solver uses it with")
     gdg_wiring(ctx, "R16.5")
-    ctx.floor("R16.5", 4)
+    ctx.floor("R16.5", 3)
 
 
 def r16_6(ctx):
